@@ -182,6 +182,7 @@ finding("C13-span-in-foreign-source", "C13", [],
  None)
 
 PANIC_FNS = {
+ "transforms-unwrap": ["infer_type_of_special_func"],
  "transforms-lineage-unwrap": ["lineage_or_default", "infer_lineage"],
  "lowering-literal-row-unwrap": ["lower_table_ref"], "lowering-unwrap": ["lower_table_ref"],
  "gen-expr-unwrap": ["translate_cid"], "gen-expr-result-unwrap": ["try_into_between"], "pq-gen-query-unwrap": ["compile_relation_instance"],
@@ -257,8 +258,8 @@ panic_finding("transforms-lineage-unwrap", "prqlc/src/semantic/resolver/transfor
  "from t2 | select {a, b} | window ((rank a) > from) | select {a}", "compile / pl_to_rq",
  "`lineage_or_default(body).unwrap()` in infer_lineage: the body of a `window` / `group` pipeline is not a relation (e.g. a comparison) - `expected .. to have table type` is unwrapped instead of returned (found by token mutation at seed 3).")
 panic_finding("transforms-unwrap", "prqlc/src/semantic/resolver/transforms.rs", "called `Option::unwrap()` on a `None` value",
- "PL JSON of `let distinct = rel -> (from t = _param.rel | group {t.*} (take 1))` with a span edited", "pl_to_rq on a PL JSON document",
- "found by the libFuzzer target json_pl.", input_kind="pl-json")
+ "PL JSON of `let distinct = rel -> (from t = _param.rel | group {t.*} (take 1))` with a span edited", "pl_to_rq on a PL JSON document or compile of a source",
+ "`infer_type` unwraps the type of a transform's input / pipeline (`transform_call.input.ty`, a `group` pipeline's body): absent for a PL JSON document with edited nodes (libFuzzer target json_pl) and for `group {f, a} (take -> 1)`, where the pipeline is a lambda (token mutation, seed 7).")
 panic_finding("codegen-ast-unwrap", "prqlc/src/codegen/ast.rs", "called `Option::unwrap()` on a `None` value",
  "PL JSON mutated so that a node the formatter unwraps is missing", "pl_to_prql on PL JSON")
 for kind, what, nmin in [("pipeline", "a pipeline of N `| derive {x = 1}` steps", 1024), ("add", "`1 + 1 + ... + 1` with N terms", 1024), ("lets", "a chain of N let-tables each reading the previous one", 4096), ("fstr", "an f-string with N interpolations", 16384)]:
